@@ -224,6 +224,9 @@ pub fn c10(g: &mut G) {
                 g.emit(format!("# golden {}", p.display()));
                 g.emit(format!("load {}", hex(&bytes)));
                 g.emit(format!("expect {}", exp.trim()));
+                // (golden files: version 3 carries a checksum that must verify, versions 1 and 2 none)
+                let v = if bytes.len() >= 8 { bytes[0] } else { 0 };
+                g.emit(format!("expectverify {}", if v >= 3 { "ok" } else { "missing" }));
                 g.emit("verify".into());
                 g.emit("stream always - -".into());
             }
@@ -264,6 +267,7 @@ pub fn c10(g: &mut G) {
             g.emit(format!("load {}", hex(&bytes)));
             g.emit(format!("expect {}", kvs_str(&kv)));
             g.emit("stream always - -".into());
+            g.emit(format!("expectverify {}", if v >= 3 { "ok" } else { "missing" }));
             g.emit("verify".into());
         }
     }
